@@ -114,6 +114,12 @@ func (fr *frame) floatBinop(op token.Token, x, y value) value {
 		}
 		return fr.freshOpaque("arith-on-opaque")
 	}
+	// finite symbolic value vs. concrete +-Inf / NaN
+	if isCmp {
+		if r, ok := cmpWithNonFinite(op, x, y); ok {
+			return r
+		}
+	}
 	// integer + small constant domain (no FP theory, no ulp claims)
 	if r, ok := fr.affineBinop(op, x, y, isCmp); ok {
 		return r
@@ -133,7 +139,7 @@ func (fr *frame) floatBinop(op token.Token, x, y value) value {
 			}
 		case token.MUL:
 			if b := xb + yb; b <= exactIntMaxBits {
-				return mkExactInt(c.Mul(xt, yt), b)
+				return mkExactInt(fr.mulNarrow(xt, yt, xb, yb), b)
 			}
 		case token.QUO:
 			if r, ok := fr.exactQuotient(xt, yt, xb); ok {
@@ -164,11 +170,11 @@ func (fr *frame) floatBinop(op token.Token, x, y value) value {
 	}
 	// exact rationals: comparisons only
 	if isCmp {
-		xn, xd, _, xr := fr.asRat(x)
-		yn, yd, _, yr := fr.asRat(y)
+		xn, xd, xrb, xr := fr.asRat(x)
+		yn, yd, yrb, yr := fr.asRat(y)
 		if xr && yr {
-			l := c.Mul(xn, yd)
-			r := c.Mul(yn, xd)
+			l := fr.mulNarrow(xn, yd, xrb, yrb)
+			r := fr.mulNarrow(yn, xd, yrb, xrb)
 			switch op {
 			case token.LSS:
 				return mkSymBool(c.SLt(l, r))
@@ -335,7 +341,7 @@ func (fr *frame) floatMinMax(isMin bool, x, y value, builtin bool) value {
 	xn, xd, xrb, xr := fr.asRat(x)
 	yn, yd, yrb, yr := fr.asRat(y)
 	if xr && yr {
-		l, r := c.Mul(xn, yd), c.Mul(yn, xd)
+		l, r := fr.mulNarrow(xn, yd, xrb, yrb), fr.mulNarrow(yn, xd, yrb, xrb)
 		cond := c.SLt(l, r)
 		if !isMin {
 			cond = c.SLt(r, l)
@@ -685,4 +691,58 @@ func (fr *frame) cmpTerms(op token.Token, a, b *smt.Term) value {
 		return mkSymBool(c.Eq(a, b))
 	}
 	return mkSymBool(c.Not(c.Eq(a, b)))
+}
+
+// mulNarrow multiplies two signed 64-bit terms known to satisfy |a| < 2^ab, |b| < 2^bb in a
+// bit-vector just wide enough for the product (a 64x64 multiplier is what makes cross-multiplied
+// ratio comparisons slow to bit-blast), then sign-extends back to 64 bits. Exact.
+func (fr *frame) mulNarrow(a, b *smt.Term, ab, bb int) *smt.Term {
+	c := fr.ctx()
+	w := ab + bb + 2
+	if w >= 64 || a.IsConst() || b.IsConst() {
+		return c.Mul(a, b)
+	}
+	return c.SExt(c.Mul(c.Extract(w-1, 0, a), c.Extract(w-1, 0, b)), 64)
+}
+
+func isFiniteSym(v value) bool {
+	s, ok := v.(SymFloat)
+	return ok && (s.Mode == FExactInt || s.Mode == FRat || s.Mode == FAffine)
+}
+
+// cmpWithNonFinite decides comparisons between a symbolic value known to be finite and a concrete
+// infinity or NaN.
+func cmpWithNonFinite(op token.Token, x, y value) (value, bool) {
+	xf, xc := x.(float64)
+	yf, yc := y.(float64)
+	var k float64
+	symLeft := false
+	switch {
+	case xc && !yc && isFiniteSym(y) && (math.IsInf(xf, 0) || xf != xf):
+		k = xf
+	case yc && !xc && isFiniteSym(x) && (math.IsInf(yf, 0) || yf != yf):
+		k, symLeft = yf, true
+	default:
+		return nil, false
+	}
+	if k != k {
+		return op == token.NEQ, true
+	}
+	// compare finite f with k: f < +Inf, f > -Inf
+	less := math.IsInf(k, 1) // finite < k
+	if !symLeft {
+		less = !less // k < finite  <=> k is -Inf
+		less = math.IsInf(k, -1)
+	}
+	switch op {
+	case token.LSS, token.LEQ:
+		return less, true
+	case token.GTR, token.GEQ:
+		return !less, true
+	case token.EQL:
+		return false, true
+	case token.NEQ:
+		return true, true
+	}
+	return nil, false
 }
